@@ -21,13 +21,19 @@ impl<T> Rc<T> {
     /// This function is invoked during `drop` to determine which strategy to use
     /// for deallocating a group of `Rc`s.
     pub(crate) fn orphaned_cycle(this: &Self) -> Option<HashMap<Link<T>, usize>> {
+        #[cfg(cactusref_verif)]
+        crate::verif::ev(crate::verif::Event::TraceStart(this.ptr.as_ptr() as usize));
         let cycle = cycle_refs(Link::forward(this.ptr));
+        #[cfg(cactusref_verif)]
+        crate::verif::ev(crate::verif::Event::TraceEnd(cycle.len()));
         if cycle.is_empty() {
             return None;
         }
         let has_external_owners = cycle
             .iter()
             .any(|(item, &cycle_owned_refs)| item.strong() > cycle_owned_refs);
+        #[cfg(cactusref_verif)]
+        crate::verif::ev(crate::verif::Event::Orphaned(!has_external_owners));
         if has_external_owners {
             None
         } else {
@@ -47,10 +53,14 @@ fn cycle_refs<T>(this: Link<T>) -> HashMap<Link<T>, usize> {
 
     // crawl the graph
     while let Some(node) = discovered.pop() {
+        #[cfg(cactusref_verif)]
+        crate::verif::ev(crate::verif::Event::TracePop(node.as_ptr() as usize));
         if visited.contains(&node) {
             continue;
         }
         visited.insert(node);
+        #[cfg(cactusref_verif)]
+        crate::verif::ev(crate::verif::Event::TraceVisit(node.as_ptr() as usize));
 
         let links = unsafe { node.as_ref().links().borrow() };
         for (&link, &strong) in links.iter() {
